@@ -21,7 +21,7 @@ func c03Run(trim bool) {
 			return
 		}
 	}
-	nCons := simrt.DrawRange(1, 4)
+	nCons := simrt.DrawRange(1, 4+2*(simrt.Scale()-1))
 	plans := make([]consPlan, nCons)
 	for i := range plans {
 		plans[i] = drawConsPlan(12)
